@@ -445,6 +445,24 @@ Section Accepted1.
     exists t, v. unfold ty_block1. rewrite Tys. split; [exact Ety|]. split; [reflexivity|].
     exact (head_keep _ _ _ _ E3 Hv (rigid_bty t)).
   Qed.
+
+  (* the same for a block checked under an environment (the body of a function whose parameters have base types) *)
+  Theorem accepted_block1_env E0 sp ss e f ctx s r ov s' :
+    frag_stmts1 (map fst E0) ss e = true -> wf s -> env_ok E0 s ->
+    expression_block G (afix f) sp (to_block1 sp ss e) ctx s = Ok ((r, ov), s') ->
+    exists t v, ty_block1 E0 ss e = Some t /\ ov = Some v /\ head s' v = Some (bty_head t).
+  Proof.
+    intros Hf W EO H. unfold expression_block, to_block1 in H. rewrite block_split_snoc in H. cbn [fst snd] in H.
+    apply bind_inv in H as (r1 & s1 & H1 & H).
+    destruct (accepted_stmts1 sp f ctx ss E0 e None s r1 s1 Hf W EO H1) as (W1 & E1 & (E' & Tys & EO' & Hfe)).
+    apply bind_inv in H as ([vret v] & s2 & He & H).
+    destruct (accepted_typed1 E' sp e Hfe _ _ _ _ _ W1 EO' He) as (W2 & E2 & (t & Ety & Hv)). cbn [snd] in Hv.
+    apply bind_inv in H as (r' & s3 & Hu & H). injection H as <- <- <-.
+    assert (Pu : pres (unify_option G sp r1 vret)) by (pose proof PG; prs).
+    destruct (Pu _ _ _ W2 Hu) as [W3 E3].
+    exists t, v. unfold ty_block1. rewrite Tys. split; [exact Ety|]. split; [reflexivity|].
+    exact (head_keep _ _ _ _ E3 Hv (rigid_bty t)).
+  Qed.
 End Accepted1.
 
 (* ================================================================== C02_E1 *)
